@@ -130,7 +130,7 @@ def build_harness(profile="dev"):
         cmd = ["cargo", "build", "--offline", "--quiet"]
         if profile != "dev":
             cmd += ["--profile", profile]
-        rc, out = sh(cmd, cwd=HARNESS)
+        rc, out = sh(cmd, cwd=HARNESS, env={"CARGO_TARGET_DIR": os.path.join(BUILD, "target")})
         if rc != 0:
             raise BuildError("harness build failed (%s):\n%s" % (profile, out[-4000:]))
     finally:
@@ -212,7 +212,7 @@ def _parse_impl_output(text):
             logs.append(ln)
     return res, begun
 
-def run_impl(lines, binary, stack=None, per_case_timeout=5.0, threads=None):
+def run_impl(lines, binary, stack=None, per_case_timeout=5.0, threads=None, base_timeout=30.0):
     """run the real code on `lines`; a crash or hang becomes the result of the case it happened in
     (`crash <status>` / `hang`) and the run resumes with the next case"""
     results = []
@@ -223,7 +223,7 @@ def run_impl(lines, binary, stack=None, per_case_timeout=5.0, threads=None):
         chunk = lines[start:]
         data = ("\n".join(chunk) + "\n").encode("utf-8")
         cmd = [binary] + (["--threads", str(threads[0]), str(threads[1])] if threads else [])
-        budget = 60 + per_case_timeout + len(chunk) * 0.002
+        budget = base_timeout + per_case_timeout + len(chunk) * 0.002
         try:
             p = subprocess.run(cmd, input=data, stdout=subprocess.PIPE, stderr=subprocess.PIPE, timeout=budget, env=env)
             out = p.stdout.decode("utf-8", "replace"); rc = p.returncode; hung = False
@@ -237,6 +237,22 @@ def run_impl(lines, binary, stack=None, per_case_timeout=5.0, threads=None):
         results.append("hang" if hung else "crash rc=%s" % rc)
         start += 1
     return results
+
+def run_impl_threads_raw(lines, binary, n, rounds, timeout=300):
+    """concurrent mode, keeping what the crate printed: returns (lines printed by `log` during the run, per-case results)"""
+    data = ("\n".join(lines) + "\n").encode("utf-8")
+    try:
+        p = subprocess.run([binary, "--threads", str(n), str(rounds)], input=data, stdout=subprocess.PIPE, stderr=subprocess.PIPE, timeout=timeout)
+        out = p.stdout.decode("utf-8", "replace")
+    except subprocess.TimeoutExpired as ex:
+        out = (ex.stdout or b"").decode("utf-8", "replace") + "\n@@E hang"
+    logs = []; res = []
+    for ln in out.split("\n"):
+        if ln.startswith("@@E "): res.append(ln[4:])
+        elif ln != "" and not res: logs.append(ln)
+        elif ln != "": logs.append("<after-results> " + ln)
+    return logs, res
+
 
 def classify(r):
     """canonical form of a result line for comparison: panics/crashes/hangs are compared by class only"""
